@@ -136,3 +136,67 @@ def x03(ck, replay=None):
                        'drop); thread pools only (the process-pool registry has the same code shape)']
     ck.finish_rc = ck.finish(rule='every request returns the executor the model names (identity) or raises ValueError; registry '
                              'contents, lifetime, max_workers and shutdown flag of every executor as in the model state')
+
+
+# ---- X04: SingleLane, the hand-off queue underneath fifo_stream / Buffer / the batching worker -------------------------------
+
+SL_INV = ['TypeOK', 'Bound', 'Fifo', 'NoUnderflow', 'MutexSane', 'NoGhostWaiter', 'WaitsOnlyWhenFull', 'WaitsOnlyWhenEmpty']
+
+
+def sl_cfg(invariants=(), properties=(), spec='Spec', nw=1, nr=1, maxops=2, maxcap=2, notify_always=True, deadlock=True,
+           init=None, **kw):
+    return tlc.cfg_text(spec=spec, constants=dict(NW=nw, NR=nr, MaxOps=maxops, MaxCap=maxcap, NotifyAlways=notify_always),
+                        invariants=invariants, properties=properties, deadlock=deadlock, init=init,
+                        next_='Next' if init else None, **kw)
+
+
+def x04(ck, replay=None):
+    import random
+    from mbt.bind import singlelane as SB
+    thorough = ck.tier == 'thorough'
+    ck.l1('SingleLane/1 writer 1 reader: every program of <= %d attempts per side x modes x capacities' % (3 if thorough else 2),
+          'SingleLane', sl_cfg(SL_INV, ['AtomicQ'], maxops=3 if thorough else 2), may_skip=('Next', 'Idle'), timeout=2400)
+    ck.l1('SingleLane/liveness under fair scheduling', 'SingleLane',
+          sl_cfg([], ['AllDone', 'WriterProgress', 'ReaderProgress'], spec='FairSpec', maxops=2, maxcap=2 if thorough else 1),
+          coverage=False, timeout=2400)
+    ck.sensitive('get notifies only if a lock-free look before the mutex saw a full queue (lost wake-up)', 'SingleLane',
+                 sl_cfg(['WaitsOnlyWhenFull'], notify_always=False), 'invariant', 'WaitsOnlyWhenFull')
+    ck.sensitive('two writers: `if` instead of `while` around the wait lets the queue exceed maxsize (the documented restriction)',
+                 'SingleLane', sl_cfg(['Bound'], nw=2, init='InitTwoWriters'), 'invariant', 'Bound')
+    for goal in ('Trap_SwallowedNotify', 'Trap_FailWithRoom', 'Trap_WriterWoken', 'Trap_ReaderWoken'):
+        ck.trap(goal, 'SingleLane', sl_cfg([goal], maxops=2 if goal != 'Trap_FailWithRoom' else 3, maxcap=1))
+    rnd = random.Random(ck.seed * 1000003 + 71)
+    scs = SB.gen_scenarios(rnd, 1200 if thorough else 150)
+    items, k = [], 0
+    for sc in scs:
+        for j in range(8 if thorough else 4):
+            k += 1
+            items.append({'id': k, 'sc': sc, 'seed': rnd.randrange(1 << 30), 'strategy': ['random', 'pct'][j % 2]})
+    # stateless exhaustive exploration (preemption-bounded) of the schedule tree of the REAL code for tiny programs
+    tiny = [(1, ['block', 'block'], ['block', 'block']), (1, ['block', 'timed'], ['timed', 'block']),
+            (1, ['nowait', 'block'], ['block', 'nowait']), (2, ['block', 'block', 'block'], ['block', 'block', 'block'])]
+    if thorough:
+        tiny += [(c, [a, b], [x, y]) for c in (1, 2) for a in SB.MODES for b in SB.MODES for x in ('block', 'timed')
+                 for y in ('block', 'nowait')]
+    for cap, wo, ro in tiny:
+        for line in ((False, True) if thorough else (False,)):
+            k += 1
+            items.append({'id': k, 'sc': {'cap': cap, 'ops': [wo, ro], 'tmo': [0.01, 0.02], 'line': line}, 'strategy': 'dfs',
+                          'bound': 3 if thorough else 2, 'max_runs': 20000 if thorough else 3000})
+    out = ck.run_binder('singlelane', items, timeout=2400)
+    ck.evaluations += int(out.get('n_exec', 0))
+    for h in out.get('crashes', []):
+        ck.violation({'leg': 'L3', 'kind': 'crash-or-livelock', 'status': h['status'], 'detail': h.get('detail'),
+                      'waitmap': h.get('waitmap'), 'exc': h.get('exc'), 'thread_errors': h.get('thread_errors'),
+                      'item': {'sc': h['sc'], 'seed': h['seed'], 'strategy': h['strategy']}, 'events': h['ev'][-80:]},
+                     sig={'leg': 'L3', 'kind': 'crash', 'status': h['status']})
+    ck.validate('SingleLane: one writer, one reader under detsched (line mode on _queues.py); random / PCT / exhaustive DFS',
+                'SingleLaneTrace', sl_cfg(spec='TraceSpec', constraint='Progress', postcondition='Report', deadlock=False),
+                out.get('traces', []))
+    ck.legs[-1]['dfs_runs'] = int(out.get('dfs_runs', 0))
+    ck.assumptions += ['one writer thread and one reader thread (what the class is documented for, and how the library uses it); '
+                       'line mode preempts before every source line of _queues.py, inside a line only at lock operations']
+    ck.finish_rc = ck.finish(rule='capacity 0..3 x programs of 1..5 attempts per side (block / timed / nowait) x schedules; every '
+                             'lock, wait, wake-up, notify, append and popleft of the real object is an action of SingleLane.tla '
+                             'with all its invariants evaluated by TLC; a run that blocks for ever is accepted only where the '
+                             'model is stuck, too')
